@@ -36,7 +36,7 @@
 //
 // Observation (one line):
 //
-//	run=<ok|err> conn=<carrying>/<accepted>/<probes> cl=<d0>/<b0>,<d1>/<b1>,.. n=<records> {| <srv> <tls> method uri host body nh {k nv {v}*nv}*nh}*   (records sorted)
+//	run=<ok|err|followups-<got>-of-<want>> conn=<carrying>/<accepted>/<probes>[/<follow-ups of redirects>] cl=<d0>/<b0>,<d1>/<b1>,.. n=<records> {| <srv> <tls> method uri host body nh {k nv {v}*nv}*nh}*   (records sorted)
 //	  srv  = T<k> (arrived at the target of pool k) | D (arrived at the decoy)
 //	  conn = connections that carried requests to the targets / connections the targets accepted / reachability probes of
 //	         PreResolveTargetAddr among the accepted ones (one per pool with a host-name target that is up at configuration time).
@@ -800,7 +800,12 @@ func runCaseOnce(line string) string {
 		cls = append(cls, fmt.Sprintf("%d/%d", d, b))
 	}
 	gunsMu.Unlock()
-	out := fmt.Sprintf("run=%s conn=%d/%d/%d cl=%s n=%d", run, len(rec.conns), rec.newc, probe, strings.Join(cls, ","), len(lines))
+	conn := fmt.Sprintf("%d/%d/%d", len(rec.conns), rec.newc, probe)
+	if rec.follow > 0 {
+		// follow-ups of redirects are requests too (without keep-alives each has its own connection): a fourth number
+		conn += fmt.Sprintf("/%d", rec.follow)
+	}
+	out := fmt.Sprintf("run=%s conn=%s cl=%s n=%d", run, conn, strings.Join(cls, ","), len(lines))
 	for _, l := range lines {
 		out += " | " + l
 	}
